@@ -2493,7 +2493,7 @@ def demoOpq : V2.Opq :=
     nkeys_IsValidPublicUserKey := fun _ => false, nkeys_IsValidPublicCurveKey := fun _ => false,
     nkeys_IsValidPublicServerKey := fun _ => false, time_Parse := fun _ _ => false, net_ParseCIDR := fun _ => false,
     time_LoadLocation := fun _ => false, nkeys_IsValidPublicOperatorKey := fun _ => false,
-    UserClaims_HasEmptyPermissions := fun _ => some true, time_NowAddUnix := fun d => d,
+    UserClaims_HasEmptyPermissions := fun _ => some true, time_NowAddUnix := fun d => d, sha256_Sum := fun x => x, base32_StdEncode := fun _ => [],
     json_Unmarshalanon_GenericClaims_GenericFields := fun _ g => (g, true),
     nkeys_FromPublicKey := fun _ => some 7, nkeys_Prefix := fun _ => 0,
     nkeys_Decode := fun _ _ => some (List.replicate 32 0),
@@ -3699,5 +3699,66 @@ theorem v2_addMapping (a : V2.T_Account) (sub : Str) (to : List V2.T_WeightedMap
   cases hm : a.f_Mappings with
   | none => exact ⟨_, by simp [hm, mapSet]; rfl, by simp [mapGet, mapLookup]⟩
   | some l => exact ⟨_, by simp [hm, mapSet]; rfl, by simp [mapGet, mapLookup]⟩
+
+/-! ## C18: `ActivationClaims.HashID`, as translated
+
+SHA-256 and base32 are parameters. What is translated and proved: the identity is refused unless issuer, subject and
+granted subject are all present, and otherwise it is `base32(sha256(bytes(issuer "." subject "." cleaned)))` where
+`cleaned` is the model's `cleanSubject` of the granted subject — a function of those three values and of nothing else
+in the claims. -/
+
+theorem gen_hashID (opq : V2.Opq) (a : V2.T_ActivationClaims) :
+    V2.ActivationClaims_HashID a opq = some
+      (if a.f_ClaimsData.f_Issuer = [] ∨ a.f_ClaimsData.f_Subject = [] ∨ a.f_Activation.f_ImportSubject = [] then ([], true)
+       else (opq.base32_StdEncode (opq.sha256_Sum (strBytes
+          (a.f_ClaimsData.f_Issuer ++ '.' :: a.f_ClaimsData.f_Subject ++ '.' :: Jwt.cleanSubject a.f_Activation.f_ImportSubject))),
+        false)) := by
+  unfold V2.ActivationClaims_HashID
+  by_cases h1 : a.f_ClaimsData.f_Issuer = []
+  · simp [h1]
+  by_cases h2 : a.f_ClaimsData.f_Subject = []
+  · simp [h2]
+  by_cases h3 : a.f_Activation.f_ImportSubject = []
+  · simp [h3]
+  simp [h1, h2, h3, v2_cleanSubject]
+
+/-- **the hash identity depends on nothing but issuer, subject and the cleaned granted subject** (translated code):
+two activations that agree on those three have the same identity, whatever else differs -/
+theorem gen_hashID_stable (opq : V2.Opq) (a b : V2.T_ActivationClaims)
+    (hi : a.f_ClaimsData.f_Issuer = b.f_ClaimsData.f_Issuer) (hs : a.f_ClaimsData.f_Subject = b.f_ClaimsData.f_Subject)
+    (hg : a.f_Activation.f_ImportSubject = b.f_Activation.f_ImportSubject) :
+    V2.ActivationClaims_HashID a opq = V2.ActivationClaims_HashID b opq := by
+  rw [gen_hashID, gen_hashID, hi, hs, hg]
+
+/-- the translated `HashID` is the hand model's `hashId` (whose theorems C18 states), with the digest instantiated -/
+theorem v2_hashID (opq : V2.Opq) (a : V2.T_ActivationClaims) :
+    V2.ActivationClaims_HashID a opq = some
+      (match Jwt.hashId (fun base => opq.base32_StdEncode (opq.sha256_Sum (strBytes base)))
+          a.f_ClaimsData.f_Issuer a.f_ClaimsData.f_Subject a.f_Activation.f_ImportSubject with
+       | none => ([], true)
+       | some h => (h, false)) := by
+  rw [gen_hashID]
+  unfold Jwt.hashId Jwt.hashIdBase
+  by_cases h : a.f_ClaimsData.f_Issuer = [] ∨ a.f_ClaimsData.f_Subject = [] ∨ a.f_Activation.f_ImportSubject = []
+  · simp [h]
+  · simp [h]
+
+/-- the bundled version-1 library computes the same identity from the same three values (same digest functions):
+a version-1 token and its migrated version-2 form name the same import -/
+theorem v1_hashID_eq_v2 (o1 : Gen.Fn.V1.Opq) (o2 : V2.Opq) (a1 : Gen.Fn.V1.T_ActivationClaims) (a2 : V2.T_ActivationClaims)
+    (hsha : o1.sha256_Sum = o2.sha256_Sum) (hb32 : o1.base32_StdEncode = o2.base32_StdEncode)
+    (hi : a1.f_ClaimsData.f_Issuer = a2.f_ClaimsData.f_Issuer) (hs : a1.f_ClaimsData.f_Subject = a2.f_ClaimsData.f_Subject)
+    (hg : a1.f_Activation.f_ImportSubject = a2.f_Activation.f_ImportSubject) :
+    Gen.Fn.V1.ActivationClaims_HashID a1 o1 = V2.ActivationClaims_HashID a2 o2 := by
+  rw [gen_hashID]
+  unfold Gen.Fn.V1.ActivationClaims_HashID
+  rw [hi, hs, hg, hsha, hb32]
+  by_cases h1 : a2.f_ClaimsData.f_Issuer = []
+  · simp [h1]
+  by_cases h2 : a2.f_ClaimsData.f_Subject = []
+  · simp [h2]
+  by_cases h3 : a2.f_Activation.f_ImportSubject = []
+  · simp [h3]
+  simp [h1, h2, h3, v1_cleanSubject]
 
 end Jwt.FnTie
